@@ -82,7 +82,12 @@ def early_batch(draw, depth=0):
     branches = deciders + survivors
     order = draw(st.permutations(list(range(len(branches)))))
     branches = [branches[i] for i in order]
-    return {"op": "parallel", "branches": branches, "cfg": {"max_concurrency": None, "completion": comp, "explicit": True}}
+    cfg = {"max_concurrency": None, "completion": comp, "explicit": True}
+    if draw(st.integers(0, 5)) == 0:
+        # the operation completes early and is then handed FAIL: its aggregated result cannot be serialized
+        cfg["serdes"] = "raising"
+        cfg["item_serdes"] = draw(st.sampled_from(["fragile", "fragile", None]))  # a faithful custom item serializer, or none
+    return {"op": "parallel", "branches": branches, "cfg": cfg}
 
 
 @st.composite
@@ -165,6 +170,8 @@ def classes(run, case):
         out.append("orphan-rejected")
     if any(e.get("under_done") for e in run.entries):
         out.append("entry-under-completed-context")
+    if any(h["upd"] and h["upd"]["Type"] == "CONTEXT" and h["upd"]["Action"] == "FAIL" and h["upd"].get("SubType") in ("Parallel", "Map") for h in run.handovers):
+        out.append("early-completing-batch-handed-FAIL")
     return out
 
 
